@@ -11,7 +11,8 @@ from vf import common
 CHECK = dict(
     id="C45", level="exploration",
     rule=("random registration histories on a fresh libimp: 1-6 libraries drawn from a small pool "
-          "(case variants, missing extension, surrounding blanks), per library a pool of names "
+          "(case variants, missing extension, surrounding blanks, names sharing the part before the first dot), "
+          "function names shared between libraries in half of the histories, per library a pool of names "
           "and ordinals of size 1..2000 (sizes 200..2000 over-represented so that a library "
           "needs more than one 0x1000 window), interleaved lib_get_add_base / lib_get_add_func "
           "calls with many repeated requests and optional dst_ad; distinct = distinct "
